@@ -204,7 +204,7 @@ PROPS = {
     },
     "C13": {
         "controls": ["SYN-1", "SYN-2", "SYN-6"],
-        "rules": [("TAB-5", tab2.tab5), ("TAB-6", tab2.tab6), ("TAB-6b", tab2.tab6b), ("SYN-1", tab2.syn1), ("SYN-2", tab2.syn2), ("SYN-3", r5.syn3), ("SYN-4", r5.syn4), ("SYN-6", r5.syn6), ("SYN-7", r5.syn7), ("SYN-8", r5.syn8), ("NRM-1", r5.nrm1)],
+        "rules": [("TAB-5", tab2.tab5), ("TAB-6", tab2.tab6), ("TAB-6b", tab2.tab6b), ("SYN-1", tab2.syn1), ("SYN-2", tab2.syn2), ("SYN-3", r5.syn3), ("SYN-4", r5.syn4), ("SYN-6", r5.syn6), ("SYN-7", r5.syn7), ("SYN-8", r5.syn8), ("SYN-9", r5.syn9), ("NRM-1", r5.nrm1)],
         "explanation": "Decides the table and follow-set clauses of C13: the feature-name synonym tables of the two lexers are equal maps, without "
                        "duplicate or unreachable spellings and covering FEAT_VARIANTS; word-level respellings (Word::to_ipa, Word::new replace chains, "
                        "lexer cur_as_ipa siblings, americanist inverse in render_normal, render marks ⊆ Word::setup tests) equal the manual's tables; every character of the word text that enters a grapheme lookup buffer in Word::fill_segments passes through Word::to_ipa (TAB-6b: the aliases apply at every position, also after `^`); "
